@@ -66,9 +66,10 @@ func (f *WithZipWriter) Call(s *slip.Scope, args slip.List, depth int) slip.Obje
 		slip.TypePanic(s, depth, "args[0]", args[0], "symbol")
 	}
 	d2 := depth + 1
-	args = args[1:]
-	for i := range args {
-		args[i] = slip.EvalArg(s, args, i, d2)
+	forms1 := args[1:]
+	args = make(slip.List, len(forms1))
+	for i := range forms1 {
+		args[i] = slip.EvalArg(s, forms1, i, d2)
 	}
 	var w io.Writer
 	if w, ok = args[0].(io.Writer); !ok {
